@@ -73,12 +73,31 @@ def in_domain(nb):
     return True
 
 
+_zones = None
+
+
+def zone(name):
+    global _zones
+    if _zones is None:
+        _zones = {"fixed+2": datetime.timezone(datetime.timedelta(hours=2)), "fixed-11:30": datetime.timezone(datetime.timedelta(hours=-11, minutes=-30))}
+        try:
+            import zoneinfo
+
+            _zones["berlin"] = zoneinfo.ZoneInfo("Europe/Berlin")
+        except Exception:  # noqa: BLE001 - no tz database: fall back to a fixed offset (the fold case is then not exercised)
+            _zones["berlin"] = _zones["fixed+2"]
+    return _zones[name]
+
+
 def kio_record(r):
     from kio.records.schema import Record, RecordHeader
 
+    ts = EPOCH + datetime.timedelta(microseconds=r["ts_us"])
+    if r.get("zone"):
+        ts = ts.astimezone(zone(r["zone"]))  # same instant, other wall clock (and fold)
     return Record(
         attributes=r["attributes"],
-        timestamp=EPOCH + datetime.timedelta(microseconds=r["ts_us"]),
+        timestamp=ts,
         offset=r["offset"],
         key=r["key"],
         value=r["value"],
@@ -99,9 +118,8 @@ def kio_new_batch(nb):
     )
 
 
-BATCH_FIELDS = ("base_offset", "batch_length", "partition_leader_epoch", "magic", "crc", "attributes",
-                "last_offset_delta", "base_timestamp", "max_timestamp", "producer_id", "producer_epoch",
-                "base_sequence")  # fmt: skip
+BATCH_FIELDS = ("base_offset", "partition_leader_epoch", "magic", "attributes", "last_offset_delta", "base_timestamp",
+                "max_timestamp", "producer_id", "producer_epoch", "base_sequence", "batch_length", "crc")  # fmt: skip
 REC_FIELDS = ("attributes", "timestamp", "offset", "key", "value", "headers")
 
 
@@ -126,10 +144,30 @@ def model_diff(exp, got, loose_ts=False, floor_us=None):
     return None
 
 
-def judge_c17(w, acc, order):
+def curated_batches():
+    """Hand-written batches the lattice does not reach within k<=2: timestamps that are equal as wall-clock
+    values but different instants (the repeated hour at the end of daylight saving time), mixed zones, a base
+    timestamp off the whole second with deltas that carry over it, descending timestamps below the base."""
+    def rec(ms, off, zone=None, **kw):
+        return dict({"attributes": 0, "timestamp": ms, "ts_us": ms * 1000, "offset": off, "key": None, "value": b"v", "headers": [], "zone": zone}, **kw)
+
+    hdr = {"producer_id": -1, "producer_epoch": -1, "partition_leader_epoch": 0, "base_sequence": -1, "attributes": 0}
+    T = 1698539400000  # 2023-10-29T00:30:00Z = 02:30 CEST (fold=0); T + 1 h = 02:30 CET (fold=1)
+    sets = [
+        [rec(T, 0, "berlin"), rec(T + 3_600_000, 1, "berlin")],
+        [rec(T + 3_600_000, 5, "berlin"), rec(T, 6, "berlin"), rec(T + 3_600_000, 7, "berlin")],
+        [rec(T, 0, "berlin"), rec(T, 1, "fixed+2"), rec(T, 2)],
+        [rec(1500, 10), rec(2100, 11), rec(2999, 12), rec(3000, 13), rec(1499, 14), rec(500, 15)],
+        [rec(1_700_000_000_999, 0, "fixed-11:30"), rec(1_700_000_001_000, 1, "fixed+2"), rec(1_700_000_000_001, 2)],
+        [rec(999, 0), rec(1000, 1), rec(1001, 2), rec(1999, 3), rec(2000, 4)],
+    ]
+    return [dict(hdr, records=rs) for rs in sets]
+
+
+def judge_c17(w, acc, order, model=None):
     from kio.records.writers import write_batch
 
-    nb, sub_ms = to_model(w)
+    nb, sub_ms = (model, False) if model is not None else to_model(w)
     case = {"batch": w}
     if not in_domain(nb):
         acc.add("out_of_domain")
@@ -160,7 +198,7 @@ def judge_c17(w, acc, order):
             acc.report(violation("C17", "write", f"C17/{label}/raised/{exc_name(e)}", "kio.records.writers:write_batch", case,
                                  "same bytes as on a fresh buffer", repr(e)[:300], order))
             return
-        if got != out or other:
+        if got != out:
             acc.report(violation("C17", "write", f"C17/{label}/bytes-depend-on-the-buffer", "kio.records.writers:write_batch", case,
                                  out.hex()[:300], f"{got.hex()[:300]} other={other}", order))
             return
@@ -238,9 +276,18 @@ def run_c17(tier):
     run.rng.shuffle(items)
     for res in pmap(_task_c17, chunks(items, max(1, len(items) // 64))):
         run.merge(res)
+    cacc = Acc()
+    for n, nb in enumerate(curated_batches()):
+        cacc.add("states")
+        cacc.add("distinct_nontrivial")
+        cacc.add("curated_batches")
+        judge_c17({"curated": n, "records": [[r["timestamp"], r["offset"], r.get("zone")] for r in nb["records"]]}, cacc, (9, n), model=nb)
+    run.merge(cacc.result())
     c = run.cov
     c["traces_validated_against_impl"] = c.get("evaluations", 0)
     c["rule"] = (
+        "hand-written batches (wall-clock-equal timestamps that are different instants in the repeated hour of a "
+        "daylight-saving zone, mixed zones, deltas carrying over the second, timestamps below the base) and "
         f"all NewRecordBatch values within k<={k} deviations of a base batch over boundary alphabets: 1-3 "
         "records; offsets ascending/equal/descending/sparse/near the int32 delta limit; timestamps "
         "whole-millisecond (equal, descending, far apart, last ms of year 9999) and sub-millisecond; "
@@ -432,6 +479,9 @@ def run_c18(tier):
             items.append((f"hand-built batch, {len(recs)} records, base_offset={bo}", data, model, True))
             extra += 1
     run.notes["hand_built_batches_incl_empty"] = extra
+    for n, nb in enumerate(curated_batches()):
+        data, model = refbatch.encode_new_batch({k: (v if k != "records" else [{kk: vv for kk, vv in r.items() if kk not in ("ts_us", "zone")} for r in v]) for k, v in nb.items()})
+        items.append((f"curated batch {n}", data, model, True))
     items = list(enumerate(items))
     run.rng.shuffle(items)
     for res in pmap(_task_c18, chunks(items, max(1, len(items) // 64))):
